@@ -247,7 +247,7 @@ func HarnessC11Str() {
 	}
 }
 
-var c11ArrFuncs = []string{"len", "join", "reverse", "slice1", "slice2", "append", "prepend", "contains", "shuffle", "rand"}
+var c11ArrFuncs = []string{"len", "join", "reverse", "slice1", "slice2", "append", "prepend", "contains", "shuffle", "rand", "append-twice", "slice-then-append"}
 
 func hIntArray(name string, maxLen int) ([]int64, *object.Array) {
 	n := vChoice(name+".n", maxLen+1)
@@ -359,6 +359,33 @@ func HarnessC11Arr() {
 			want = append(append(want, x, y), vals...)
 		}
 		vAssert(hSameInts(got, want), name+"-extends-the-array")
+	case "append-twice", "slice-then-append":
+		// no call may change a value that an earlier call returned or received: the receiver's element slice has
+		// spare capacity here (as it has after slice() or for literals of some lengths)
+		x, y := vInt64("x"), vInt64("y")
+		var base *object.Array
+		var baseVals []int64
+		if name == "append-twice" {
+			roomy := make([]object.Object, n, n+4)
+			copy(roomy, recv.Elements)
+			base, baseVals = &object.Array{Elements: roomy}, vals
+		} else {
+			if n == 0 {
+				vAssume(false)
+			}
+			res, err := hCall(T, "slice", recv, &object.Int{Value: 0}, &object.Int{Value: int64(n - 1)})
+			vAssert(err == nil, "slice-no-error")
+			base, baseVals = res.(*object.Array), vals[:n-1]
+		}
+		r1, err1 := hCall(T, "append", base, &object.Int{Value: x})
+		vAssert(err1 == nil, "append-no-error")
+		first := hIntsOf(r1, "append")
+		r2, err2 := hCall(T, "append", base, &object.Int{Value: y})
+		vAssert(err2 == nil, "append-no-error")
+		second := hIntsOf(r2, "append")
+		vAssert(hSameInts(first, append(append([]int64{}, baseVals...), x)), "append-extends-the-array")
+		vAssert(hSameInts(second, append(append([]int64{}, baseVals...), y)), "append-extends-the-array")
+		vAssert(hSameInts(hIntsOf(r1, "append"), append(append([]int64{}, baseVals...), x)), "a-later-call-does-not-change-an-earlier-result")
 	case "contains":
 		x := vInt64("x")
 		res, err := hCall(T, "contains", recv, &object.Int{Value: x})
